@@ -59,6 +59,9 @@ def scenarios(tier, pid):
        "--threads", "X9:5,R10:6;R10:1,U1", "--preempt", 2)
     sc("stale_and_fresh_ids", ("C05", "C01"), "--threads", "R10:1,U1,U1,R10:2,R12:3,S10,S10,U3",
        "--nested", 1)
+    # the survivors keep their registration order whichever action is removed (oldest, middle, newest)
+    sc("order_after_removing_older_actions", ("C02", "C05"), "--threads",
+       "R10:1,R10:2,R10:3,R10:4,U1,D10,U3,D10,R10:5,D10,U2,D10,R10:6,R10:7,U5,D10")
     sc("stale_id_after_reregistration", ("C02", "C05"), "--threads", "R10:1,R10:2,U2,R10:3,U2,D10,U1,U3")
     sc("poisoned_writer_then_concurrent_mutators", ("C01", "C02", "C05", "C18"), "--threads",
        "U90,U1,D10;R12:5", "--pre", "R10:90,R10:1", "--preempt", 2)
